@@ -27,6 +27,11 @@ def generate(tier, seed):
         lo = rng.choice([0.0625, 0.125, 0.5])
         hi = rng.choice([1.0, 8.0, 64.0, 512.0])
         xs = sorted(set([lo, hi] + [rng.dyadic(lo, hi, 12) for _ in range(n - 2)]))
+        if k % 10 == 3:           # a table that starts or ends exactly at V: it covers 0.55 micron (at its edge)
+            xs = ([0.55] + [x for x in xs if x > 0.55]) if k % 20 == 3 else ([x for x in xs if x < 0.55] + [0.55])
+            if len(xs) < 2:
+                xs = [0.55, 1.0] if k % 20 == 3 else [0.25, 0.55]
+            lo, hi = xs[0], xs[-1]
         chi = [rng.logdyadic(0.5, 2e4, 12) for _ in xs]
         q = []
         for _ in range(rng.randint(3, 12)):
